@@ -45,7 +45,15 @@ type plainImm struct{ c *immunitycache.ImmunityCache }
 
 func (p plainImm) hasOrAdd(k, pl []byte, sz int) (bool, bool) { return p.c.HasOrAdd(k, pl, sz) }
 func (p plainImm) put(k, pl []byte, sz int)                   { p.c.Put(k, pl, sz) }
-func (p plainImm) remove(k []byte) bool                       { return p.c.RemoveWithResult(k) }
+func (p plainImm) remove(k []byte) bool {
+	// Remove is RemoveWithResult without the result: alternate, reading the outcome back through Has for the former
+	if len(k) > 0 && k[len(k)-1]%2 == 0 {
+		was := p.c.Has(k)
+		p.c.Remove(k)
+		return was
+	}
+	return p.c.RemoveWithResult(k)
+}
 func (p plainImm) immunize(keys [][]byte) (int, int, bool) {
 	a, b := p.c.ImmunizeKeys(keys)
 	return a, b, true
